@@ -428,7 +428,56 @@ def _run_reentrant(case, std):
     return {"out": res, "log": log}
 
 
+def _run_aclose_in_except(case, std):
+    """`aclose()` called while an unrelated exception is being handled (close, then re-raise) or from a `finally`: the exits
+    are told that the block ended normally - (None, None, None) - exactly like `async with stack: pass` placed there"""
+    log = []
+
+    class M:
+        async def __aenter__(self):
+            return self
+
+        async def __aexit__(self, t, v, tb):
+            log.append(["exit-cm", None if v is None else type(v).__name__])
+            return False
+
+    async def pushed(t, v, tb):
+        log.append(["exit-pushed", None if v is None else type(v).__name__])
+        return False
+
+    async def cb():
+        log.append(["callback"])
+
+    async def main():
+        st = contextlib.AsyncExitStack() if std else asyncstdlib.ExitStack()
+        if std:
+            await st.enter_async_context(M())
+            st.push_async_exit(pushed)
+            st.push_async_callback(cb)
+        else:
+            await st.enter_context(M())
+            st.push(pushed)
+            st.callback(cb)
+        if case["where"] == "except":
+            try:
+                raise KeyError("being handled")
+            except KeyError:
+                await st.aclose()
+        else:
+            try:
+                try:
+                    raise KeyError("propagating")
+                finally:
+                    await st.aclose()
+            except KeyError:
+                pass
+    res = drive(main())
+    return {"log": log, "exc": exc_name(res.exc)}
+
+
 def observe(case):
+    if case["kind"] == "acloseexc":
+        return {"impl": _run_aclose_in_except(case, False), "std": _run_aclose_in_except(case, True)}
     if case["kind"] == "entersusp":
         return _enter_susp.observe(case)
     if case["kind"] == "reentrant" and case["act"].startswith("enter-"):
@@ -441,6 +490,8 @@ def observe(case):
 
 
 def model_request(case):
+    if case["kind"] == "acloseexc":
+        return None
     if case["kind"] == "entersusp":
         return _enter_susp.model_request(case)
     if case["kind"] == "reentrant" and case["act"].startswith("enter-"):
@@ -457,6 +508,11 @@ def model_request(case):
 
 def judge(case, obs, model):
     issues = []
+    if case["kind"] == "acloseexc":
+        want = [["callback"], ["exit-pushed", None], ["exit-cm", None]]
+        if obs["impl"]["log"] != want or obs["impl"] != obs["std"]:
+            issues.append(Issue("oracle", {"asyncstdlib": obs["impl"], "contextlib": obs["std"]}, "aclose-hands-exits-the-exception-being-handled"))
+        return issues
     if case["kind"] == "entersusp":
         return _enter_susp.judge(case, obs, model)
     if case["kind"] == "reentrant":
@@ -517,6 +573,8 @@ def judge(case, obs, model):
 
 def features(case, obs):
     f = [case["kind"]]
+    if case["kind"] == "acloseexc":
+        return ["acloseexc:" + case["where"]]
     if case["kind"] == "entersusp":
         return _enter_susp.features(case, obs)
     if case["kind"] == "unwind":
@@ -551,6 +609,8 @@ def _entry(i, kind, beh):
 
 def cases(tier, rng):
     yield from _reentrant_cases()
+    for where in ("except", "finally"):
+        yield {"kind": "acloseexc", "where": where, "entries": {}}
     # managers whose enter / exit / block SUSPEND, cancelled at any suspension point (Machines/ExitStackEnter.lean)
     yield from _enter_susp.cases(rng, 1500 if tier == "quick" else 20000)
     maxn = 3 if tier == "quick" else 4
